@@ -16,11 +16,16 @@ ENGINES = {
     'validators': dict(quick=20000, thorough=400000),
     'aead': dict(quick=150, thorough=3000),
     'config': dict(quick=3000, thorough=80000),
+    'proxyflow': dict(quick=250, thorough=5000),
 }
 
 PROPS = {
+    'C01': dict(spec_mods=['SsoSpec.C01'], engines=['proxyflow']),
     'C02': dict(spec_mods=['SsoSpec.C02'], engines=['aead']),
-    'C11': dict(spec_mods=['SsoSpec.C11'], engines=['validators']),
+    'C04': dict(spec_mods=['SsoSpec.C04'], engines=['proxyflow']),
+    'C05': dict(spec_mods=['SsoSpec.C05'], engines=['proxyflow']),
+    'C11': dict(spec_mods=['SsoSpec.C11'], engines=['validators', 'proxyflow']),
+    'C13': dict(spec_mods=['SsoSpec.C13'], engines=['proxyflow']),
     'C14': dict(spec_mods=['SsoSpec.C14'], engines=['config']),
     'C15': dict(spec_mods=['SsoSpec.C15'], engines=['breaker']),
     'C16': dict(spec_mods=['SsoSpec.C16'], engines=['sf', 'sfwrap']),
@@ -29,7 +34,14 @@ PROPS = {
 
 # model branches every run must reach (engine:branch); a branch the implementation can no longer reach
 # means it no longer behaves like the model on the prelude's representative.
+PF_FLOOR = ['proxyflow:noCookie', 'proxyflow:invalidSession', 'proxyflow:wrongIdP', 'proxyflow:wrongUpstream', 'proxyflow:lifetimeExpired',
+            'proxyflow:fresh/ok', 'proxyflow:fresh/validatorDenied', 'proxyflow:refresh/ok', 'proxyflow:refresh/error', 'proxyflow:validate/ok', 'proxyflow:validate/false',
+            'proxyflow:validate/validatorDenied', 'proxyflow:whitelisted', 'proxyflow:misdirected', 'proxyflow:ping', 'proxyflow:clean-redirect',
+            'proxyflow:signout', 'proxyflow:robots', 'proxyflow:cb/login', 'proxyflow:cb/denied', 'proxyflow:cb/mismatch', 'proxyflow:cb/sameCiphertext',
+            'proxyflow:cb/badState', 'proxyflow:cb/noCsrfCookie', 'proxyflow:cb/badCsrf', 'proxyflow:cb/redeemFailed', 'proxyflow:cb/emptyEmail',
+            'proxyflow:cb/noCode', 'proxyflow:cb/errorParam', 'proxyflow:https-redirect', 'proxyflow:favicon/fresh/ok', 'proxyflow:favicon/noCookie']
 FLOORS = {
+    'C01': PF_FLOOR, 'C04': PF_FLOOR, 'C05': PF_FLOOR, 'C13': PF_FLOOR,
     'C14': ['config:loaded', 'config:loaded/skip-regex', 'config:error/missingService', 'config:error/missingFrom', 'config:error/missingTo',
             'config:error/badFromUrl', 'config:error/badFromRegex', 'config:error/unknownType', 'config:error/badSkipRegex',
             'config:error/badHmac', 'config:error/noAllowRule'],
@@ -37,7 +49,7 @@ FLOORS = {
             'aead:truncate-bytes/rejected', 'aead:extend/rejected', 'aead:newline/rejected', 'aead:cr/rejected', 'aead:trailing-bits/rejected',
             'aead:swap-nonce-body/rejected', 'aead:nonce-only/rejected', 'aead:body-from-other-key/rejected', 'aead:nonce-from-other-seal/rejected',
             'aead:random-bytes/rejected', 'aead:random-string/rejected', 'aead:empty/rejected'],
-    'C11': ['validators:addr/ok', 'validators:addr/denied', 'validators:addr/invalid-email', 'validators:domain/ok', 'validators:domain/denied',
+    'C11': PF_FLOOR + ['validators:addr/ok', 'validators:addr/denied', 'validators:addr/invalid-email', 'validators:domain/ok', 'validators:domain/denied',
             'validators:domain/invalid-email'],
     'C17': ['caches:gc/hit', 'caches:gc/miss', 'caches:gc/error', 'caches:gc/purge', 'caches:fc/updBegin/began', 'caches:fc/updBegin/busy',
             'caches:fc/updEnd/updated', 'caches:fc/loopStart/loopStarted', 'caches:fc/loopStart/loopRefused', 'caches:fc/loopUpdBegin/began',
@@ -65,7 +77,13 @@ COMMON_TB = [
     "the correspondence harness (/verif/harness, built into the sso module with go build -overlay), its generators and canonicalisation, and the Lean driver's JSON decoding",
 ]
 
+PF_TB = ["the fake sso-auth, the recording backends and the in-process driving of the real handler tree (proxy.New from a generated YAML file, wrapped in NewLoggingHandler as cmd/sso-proxy/main.go does); requests are parsed by net/http's own request reader",
+            "time: sso reads time.Now() directly; the clock is advanced by re-sealing the browser's cookie with every instant shifted (the harness holds the cookie secret), exact because both services are stateless between requests; deadlines exactly equal to 'now' are unobservable and skipped",
+            "Go regexp (skip-auth patterns, rewrite routes), strings.ToLower, path.Clean (gorilla/mux path cleaning) and http.Redirect's Location rewriting are oracles computed by calling the libraries directly",
+            "sealed cookies are idealised as in C02: LoadSession yields a session only for a value sealed under the proxy's secret",
+            "modelled: oauthproxy.go Authenticate/Proxy/AuthenticateOnly/Favicon/OAuthCallback/SignOut/Handler route table, providers/sso.go Redeem stamping, ValidateGroup, RefreshSession, ValidateSessionState, sessions deadlines and grace, hostmux.Router; not modelled: logging, statsd, the reverse proxy itself (C03/C12)"]
 TB = {
+    'C01': PF_TB, 'C04': PF_TB, 'C05': PF_TB, 'C13': PF_TB,
     'C14': ["yaml.v2 parsing is not modelled: the harness renders a generated structured document to YAML for the real loader and ships the structured form to the model",
             "mergo v0.3.7 is modelled for the struct shapes it is applied to (override / fill; pointer, slice, map, scalar rules) and tied differentially; url.Parse, regexp.Compile and hmacauth's digest table are oracles (theorems hold for every behaviour)",
             "template substitution is applied per string field in the model (generated values contain no braces, so map-iteration order does not matter)",
@@ -89,16 +107,20 @@ TB = {
             "modelled: all of internal/auth/circuit/breaker.go except ExponentialBackoffDuration's floating-point jitter (the back-off rule is an arbitrary function in the theorems)"],
 }
 
+PF_RULE = "proxyflow: real proxy with three upstreams (static domain-rule + skip-auth regexes; static group-rule with its own provider_slug; rewrite route with address+domain rules), rules of the first upstream drawn over all subsets of {addresses, domains, groups} incl. wildcards and case variants, TTLs varied; four modes: (a) decision table: 6-15 independent requests with cookie kind (none, garbage, other key, sealed flow record, sealed session with slug/host/lifetime/refresh/valid/grace/e-mail/refresh-token each independently good or bad) x request (hosts incl. unrouted/case/port variants, 18 targets incl. encoded, dot-segment, double-slash, backslash, fixed routes; XHR; methods) x authenticator answers (ok, 401, 429, 503, other statuses, transport error, malformed JSON independently at /validate, /profile, /refresh, group answers); (b) login then a history of 4-12 requests on the browser's jar with gaps around V, token TTL, G and L, faults, replays of older cookies; (c) flows: two starts then 3-7 callbacks with state/CSRF kinds (own, stale, other, same, garbage, sealed session, other key, absent), codes, error params, redeem outcomes, e-mails; fixed prelude with one representative per model branch; non-trivial = an upstream was reached; distinct = distinct case hash"
 RULES = {
+    'C01': PF_RULE, 'C04': PF_RULE, 'C05': PF_RULE, 'C13': PF_RULE,
     'C14': "documents of 1-3 services x default/prod/staging blocks (present, absent, null) x optional options (each field independently set; maps with overlapping keys and empty values; bad regex; per-upstream provider_slug) x 0-2 extra routes x route types (simple, rewrite, unknown) x from/to incl. template variables, unparsable hosts, missing; cluster prod/staging/default; deployment defaults each on/off; HMAC key specs good/bad; fixed prelude with one document per error kind; non-trivial = loading succeeded with at least one upstream; distinct = distinct case hash",
     'C02': "per case one value (session or flow record; empty, Unicode, NUL, 300-byte fields, up to 40 groups) sealed twice under key 1 and once under key 2; variants of the sealed string: every single-bit flip and every truncation (first 3 cases; 48 random flips and sampled truncations otherwise), byte truncations/prefix drops, extensions/prependings by alphabet chars, '=', CR, LF, space, NUL, std alphabet, padded forms, CR/LF insertion at 5 positions and between all chars, every trailing-bit variant of the last character, nonce/body swap, nonce only, body only, nonce from the other seal, body from the other key, empty, random bytes/strings; non-trivial = always (each case opens the genuine value); distinct = distinct case hash",
-    'C11': "validators: rule lists of 0-3 entries (addresses or domains, '*' alone and among others) x e-mails from a grammar (case variants, Unicode with special case mappings, several '@', empty local part, no '@', look-alike and sub-domains, trailing '*'), one third constructed to hit; non-trivial = non-empty rules and non-empty e-mail; distinct = distinct case hash",
+    'C11': PF_RULE + " || validators: rule lists of 0-3 entries (addresses or domains, '*' alone and among others) x e-mails from a grammar (case variants, Unicode with special case mappings, several '@', empty local part, no '@', look-alike and sub-domains, trailing '*'), one third constructed to hit; non-trivial = non-empty rules and non-empty e-mail; distinct = distinct case hash",
     'C17': "three case kinds, one third each: gc = 4-20 questions/purges over 2-3 users x permuted subsets of 3-4 group names with directory answers/errors; fc = 5-30 lockstep events (Update begin/end with ok/notFound/err, RefreshLoop, loop fill end, Stop, Get) over 1-3 groups and 4 caller threads; mem = random cache contents x asked subsets x directory answers for Google and Cognito; fixed prelude covers every branch; non-trivial = a cache hit (gc), a fill began (fc), a partly cached question (mem); distinct = distinct case hash",
     'C16': "sf: schedules over 2-8 threads x 1-3 keys (arrive | fnReturn v | remove | wake), arrivals before/while/after the leader runs and inside the done/remove window, values and errors; sfwrap: 2-5 callers per case over every coalesced method of both middlewares with tokens/emails/group sets drawn to collide or differ (incl. ':' and ',' in names, permuted group order), executions held until all callers arrived; non-trivial = at least one caller joined another's call; distinct = distinct case hash",
     'C15': "event lists (start i | complete i ok | tick d) over random rule tables (trip threshold 1-4 on fail or fail+cur, reset 1-3, back-off const/linear/cur-dependent, half-open cap 0-3), 5-45 events, ticks drawn at exactly / just before / just after the back-off; a fixed prelude covers every LTS step kind; a case is non-trivial when the breaker changed state at least once; distinct = distinct (cfg, ops) hash",
 }
 
+PF_ASSUME = ["AEAD ideal as in C02", "the authenticator's answers within one request are the scripted ones (one answer per endpoint per request)", "no deadline equals the request instant exactly"]
 ASSUME = {
+    'C01': PF_ASSUME, 'C04': PF_ASSUME + ["histories are per browser: the client may present any cookie of its own chain, nothing else opens (C02)"], 'C05': PF_ASSUME + ["grace window statements are per session value: replaying a pre-outage cookie restarts the window (outside the property's one-browser quantifier; see DESIGN)"], 'C13': PF_ASSUME,
     'C14': ["YAML parsing yields the structured document the generator rendered", "url.Parse / regexp.Compile arbitrary (oracles)"],
     'C02': ["AES-CMAC-SIV is INT-CTXT and key-separating; confidentiality assumed", "crypto/rand nonces are fresh", "gzip/json round trip on sealed values"],
     'C11': ["strings.ToLower may be any function (theorems quantify over it)", "redeemCode rejects an empty e-mail before validators run (modelled; checked in proxyflow)"],
